@@ -11,6 +11,14 @@ CHECKS = {
    technique="runtime monitoring with fault injection: every message of a corrupted party altered by tree-mutation classes or consistent lies through taps; honest return values checked against the exhaustively enumerated admissible output set",
    text="One corrupted party (every party, as evaluator and garbler, n in {2,3}) runs the real engine while the adversary alters each message it sends (every tree-mutation class at sampled positions; single recipient, all recipients, persistent) or lies consistently through taps; every case repeated with fresh coins. An honest Ok value outside {f(x_honest,x')} or two honest Ok values no single x' explains is a violation.",
    note="Detection of coin-dependent breaks is probabilistic per case (repetitions R=3 quick / 6 thorough). Adaptive multi-message strategies beyond the enumerated families, more than one corrupted party and n>3 are out of reach."),
+ "C03": dict(level="fault_enumeration", ref="DESIGN.md §3 C03",
+   technique="runtime monitoring with fault injection: catalogue of forged authenticated online-phase fields (wire and tap level), victim's mpc result observed",
+   text="Catalogue of forged authenticated fields of the online phase (mask-share bit/MAC, input labels incl. the other valid label, all four rows of a gate at body and tag bytes, wrong share bit garbled into the rows, evaluator's revealed value/label, per-recipient masked inputs and echo hashes) per register position, corrupted role, victim role, n in {2,3}; the designated victim must return Err.",
+   note="Only fields the generator knows to be consumed are judged; held on the enumerated catalogue with fresh coins per repetition."),
+ "C04": dict(level="fault_enumeration", ref="DESIGN.md §3 C04",
+   technique="runtime monitoring: (a) fault injection catalogue over every preprocessing check, (b) online trace checker commit-before-reveal over the event log under adversarial schedulers, (c) predictor monitor comparing challenges recomputed from public openings with probes of the challenges used",
+   text="(a) every preprocessing verification step is attacked on the wire (single/all recipients, persistent) or consistently through taps; honest receivers must return Err and must not send any online-phase message afterwards. (b) for every party and round the first reveal send must follow the receipt of every commitment, checked on honest runs under starving/random/PCT schedules with capacities 1,2,unbounded. (c) a passive predictor recomputes KOS chi_0, the aBit test seed and the bucket permutation from the coin-toss openings; exact match = predictable (recorded known findings), equal chi_0 in two sessions = reuse.",
+   note="Cheating with inherent detection failure above 2^-64 is not in the must-abort catalogue. (c) only knows the probed challenges. Known findings: the three challenges are derived from the initial toss and chi is reused (not a small patch)."),
  "C08": dict(level="fault_enumeration", ref="DESIGN.md §3 C08",
    technique="runtime monitoring with fault injection: adversarial channel rewrites/drops messages or crashes the peer; outcome, exact deadlock detection and counting allocator observed per execution (sharded sub-processes)",
    text="For every message a corrupted party sends in the fault configurations (n=2 complete, n=3 sampled in quick / complete in thorough) the message is replaced by every byte-level class and every structure-aware mutation class of its decoded tree, or the peer vanishes after it (both send-to-dead semantics). Each honest party must end in Ok or Err: a caught panic, an exact 'no runnable task' state, a single allocation request above the bound or a process abort is a violation.",
